@@ -412,6 +412,15 @@ package core
 //@   ensures [C17] ret == nil ==> core.catalog.Info.Title == d.namedParameters["Title"]
 //@   ensures [C02] ret != nil ==> ret.file == d.keywordCoords.file && ret.index == d.keywordCoords.begin
 
+// Protocol: required parameter, and one Protocol per URL
+//@ func (core.JApiCore).addProtocol
+//@   tag C11 C01 C02
+//@   requires DirWF(d) && core.onlyOneProtocolIntoURL != nil
+//@   ensures [C11] !has(d.namedParameters, "ProtocolName") || d.namedParameters["ProtocolName"] == "" ==> ret != nil && unchanged()
+//@   ensures [C11] old(has(core.onlyOneProtocolIntoURL, d.Parent)) ==> ret != nil && unchanged()
+//@   ensures [C11] ret == nil ==> has(core.onlyOneProtocolIntoURL, d.Parent)
+//@   ensures [C02] ret != nil ==> ret.file == d.keywordCoords.file && ret.index == d.keywordCoords.begin
+
 //@ func (core.JApiCore).addBaseUrl
 //@   tag C11 C17 C01
 //@   requires DirWF(d) && d.Parent != nil && core.catalog != nil && core.catalog.Servers != nil && RepInvServers(core.catalog.Servers) && core.catalog.Servers.mx == 0
